@@ -137,7 +137,7 @@ theorem fixOne_store (err : Int) (store : List Res) (fixes : List Premise) (ps :
 /-! ### the invariant -/
 
 def StoreNTG (store : List Res) : Prop := ∀ r ∈ store, NoTerminalGap r.o.rows
-def ExtraNTG (extra : List (Scaffold × Option (Fragment × Option Gap))) : Prop := ∀ e ∈ extra, NoTerminalGap e.1.rows
+def ExtraNTG (extra : List (Scaffold × Option (Fragment × List Gap))) : Prop := ∀ e ∈ extra, NoTerminalGap e.1.rows
 
 theorem noTerminalGap_nil : NoTerminalGap [] := by unfold NoTerminalGap; simp
 
